@@ -312,7 +312,8 @@ fn run(ctx: &mut Ctx) {
 /// whole-file tag scenario generator: create / store / use / error orders, tail lines,
 /// directives without output between tag and producer
 pub fn gen_tag_file(r: &mut StdRng) -> String {
-    let tags = ["T1", "T2", "XY", "T", "T1X", "YX"];
+    // (names with an inner blank are legal: the name is the whole trimmed argument)
+    let tags = ["T1", "T2", "XY", "T", "T1X", "YX", "my tag", "item one", "item two"];
     let mut ls: Vec<String> = vec![];
     let n = r.gen_range(1..=5);
     for _ in 0..n {
@@ -343,7 +344,7 @@ pub fn gen_tag_file(r: &mut StdRng) -> String {
                     }
                 }
             }
-            1 => ls.push(format!("{ws}-TXTPP#run printf '{}'", ["x", "x\\n", "a\\nb", "a\\r\\nb\\r\\n", "", "T1"][r.gen_range(0..6)])),
+            1 => ls.push(format!("{ws}-TXTPP#run printf '{}'", ["x", "x\\n", "a\\nb", "a\\r\\nb\\r\\n", "", "T1", "one\\r\\r\\ntwo", "k\\r\\r\\n"][r.gen_range(0..8)])),
             2 => ls.push(format!("{ws}-TXTPP#include {}", ["static.txt", "nonl.txt", "crlf.txt", "dep.txt", "dep.txt"][r.gen_range(0..5)])),
             _ => ls.push(format!("{ws}-TXTPP#run echo {tag}")),
         }
